@@ -292,3 +292,37 @@ def paging(page: int, s0: int, nh: bool) -> bool:
     post: _
     """
     return _paging(page, s0, nh)
+
+
+def _reinit(n0, n1, s0, s1, target, target2):
+    """a handle that has written to packs 0..k re-initialises the container (clear=True) and writes again: the new
+    container's packs are numbered from zero again and filled in order (C13 over a history containing a re-init)"""
+    w = make_world(target)
+    try:
+        w.set_pack(0, [('junk', 0, n0)])
+        w.set_pack(1, [('junk', 1, n1)])
+        if w.c.add_objects_to_pack([w.content(0, s0)]) != [w.key(0, s0)]:
+            return False
+        w.c.init_container(clear=True, pack_size_target=target2)
+        img0 = w.image()
+        if img0.pack_ids() != []:
+            return False
+        if w.c.add_objects_to_pack([w.content(1, s1)]) != [w.key(1, s1)]:
+            return False
+        img1 = w.image()
+        if not layout_ok(img0, img1, target2):
+            return False
+        if w.c.add_objects_to_pack([w.content(0, s0)]) != [w.key(0, s0)]:
+            return False
+        img2 = w.image()
+        return layout_ok(img1, img2, target2) and w.c.get_object_content(w.key(1, s1)) == w.content(1, s1) and w.c.get_object_content(w.key(0, s0)) == w.content(0, s0)
+    finally:
+        w.cleanup()
+
+
+def reinit_packid(s0: int, s1: int, target2: int) -> bool:
+    """
+    pre: 1 <= s0 <= 1000 and 1 <= s1 <= 1000 and 1 <= target2 <= 1000
+    post: _
+    """
+    return _reinit(10, 9, s0, s1, 5, target2)  # the first write goes to pack 2 and leaves 2 as the cached id
